@@ -1,0 +1,45 @@
+//go:build verif
+
+package keeper
+
+// Contracts for the verification machinery in /verif (comment-only file; no code).
+//
+// verif:import types github.com/teleport-network/teleport/x/aggregate/types
+// verif:import endpointcontract github.com/teleport-network/teleport/syscontracts/xibc_endpoint
+
+// ---- module-initiated EVM calls (C06, C11) -------------------------------------------------------
+
+// No post-tx hooks are run by this copy. The only error return after ApplyMessage succeeded would be a
+// failing JSON encoding of an evmtypes.Log, which cannot happen (assumed: /verif/axioms/evm.axm).
+// verif:func (Keeper).CallEVMWithData
+//@ modifies evm(ctx)
+//@ modifies bank(ctx)
+//@ modifies supply(ctx)
+//@ modifies auth(ctx)
+//@ ensures [all-or-nothing] err != nil ==> unchanged(ctx)
+//@ ensures [resp]           err == nil ==> result != nil
+
+// ($contract: the callee's parameter; "contract" alone is this function's own parameter)
+// verif:func (Keeper).AddERC20TraceToTransferContract
+//@ modifies evm(ctx)
+//@ modifies bank(ctx)
+//@ modifies supply(ctx)
+//@ modifies auth(ctx)
+//@ callsite CallEVMWithData [from-module] from == types.ModuleAddress && *$contract == endpointcontract.EndpointContractAddress
+//@ ensures [all-or-nothing] err != nil ==> unchanged(ctx)
+
+// verif:func (Keeper).EnableTimeBasedSupplyLimitInTransferContract
+//@ modifies evm(ctx)
+//@ modifies bank(ctx)
+//@ modifies supply(ctx)
+//@ modifies auth(ctx)
+//@ callsite CallEVMWithData [from-module] from == types.ModuleAddress && *contract == endpointcontract.EndpointContractAddress
+//@ ensures [all-or-nothing] err != nil ==> unchanged(ctx)
+
+// verif:func (Keeper).DisableTimeBasedSupplyLimitInTransferContract
+//@ modifies evm(ctx)
+//@ modifies bank(ctx)
+//@ modifies supply(ctx)
+//@ modifies auth(ctx)
+//@ callsite CallEVMWithData [from-module] from == types.ModuleAddress && *contract == endpointcontract.EndpointContractAddress
+//@ ensures [all-or-nothing] err != nil ==> unchanged(ctx)
